@@ -4,6 +4,9 @@ CONSTANTS MaxLen = 4
   Starts <- StartsAll
   Xs = {2}
   Nested = FALSE
+  Ys <- NoData
+  Extra <- NoElems
+  Variant = "doc"
   CopyVarContext = TRUE
   ExtendByCompose = TRUE
 INVARIANT DataEq
